@@ -150,9 +150,35 @@ def r_get_pagein(ctx):
 
 
 def _closure_paths(repo, parent, env, locals_, ok, extra_inline=()):
-    fi = repo.func(f"{DS}.Manager.{parent}.callback")
+    """Explore the completion callback that Manager.<parent>(key) hands to the disk pool, with the variables it captured
+    at submission (found by exploring the parent on the model store — independent of how the locals are called)."""
+    pfi = repo.func(f"{DS}.Manager.{parent}")
+    env0 = dict(env)
+    d = env0["self.datasets"]["k"]
+    d.fields["status"] = sst("in_memory" if parent == "page_out" else "on_disk")
+    if parent == "page_in":
+        env0["self.free_space"] = env0.get("self.free_space", 0) + d.fields["size"]
+    pp = Interp(repo, call_models=MODELS).explore(pfi, env=env0, args={"key": "k"})
+    cb = None
+    heap = None
+    for p in pp:
+        for e in p.effects:
+            if e.kind == "call" and e.data.get("method") == parent and (e.data.get("field") or "").endswith("Manager.disk"):
+                for a in e.data["args"]:
+                    if isinstance(a, Closure):
+                        cb, heap = a, p.heap
+    if cb is None:
+        from ..repo import AnalysisError
+
+        raise AnalysisError(f"Manager.{parent} does not submit a disk job with a completion callback on the model store")
+    cl = {k: c.value for k, c in cb.frame.locals.items()}
+    cl.setdefault("self", Sym("self"))
+    env2 = {k: v for k, v in heap.items() if k.startswith("self.")}
+    for k in ("self.pageout_count",):
+        if k in env:
+            env2[k] = env[k]
     ip = Interp(repo, call_models=MODELS, inline=lambda f: f.qual == f"{DS}.Manager.purge" or f.qual in extra_inline)
-    return fi, ip.explore(fi, env=env, args={"ok": ok}, closure_locals=locals_)
+    return cb.fi, ip.explore(cb.fi, env=env2, args={"ok": ok}, closure_locals=cl)
 
 
 def _lock_reentry(p):
